@@ -41,7 +41,7 @@ K = 6
 def plan(tier, seed):
     shards = [{"kind": "descriptions"}]
     n = 6
-    shards += [{"kind": "histories", "count": 40 if tier == "quick" else 400, "length": 40 if tier == "quick" else 120,
+    shards += [{"kind": "histories", "count": 40 if tier == "quick" else 1200, "length": 40 if tier == "quick" else 120,
                 "cs": seed * 100 + i, "threaded": i % 3 == 2} for i in range(n)]
     shards += [{"kind": "waits", "rounds": 6 if tier == "quick" else 40, "cs": seed}]
     return shards
